@@ -79,11 +79,19 @@ fn main() {
         "C06" => c06::run(&mut out, &mut rng, tier),
         "C07" => c07::run(&mut out, &mut rng, tier),
         "C19" => c19::run(&mut out, &mut rng, tier),
-        "C01" => mapper::run_histories(&mut out, &mut rng, tier, 1 | 16),
-        "C02" => mapper::run_histories(&mut out, &mut rng, tier, 2),
-        "C09" => mapper::run_histories(&mut out, &mut rng, tier, 4),
-        "C10" => mapper::run_histories(&mut out, &mut rng, tier, 8),
-        "MAPPER" => mapper::run_histories(&mut out, &mut rng, tier, 31),
+        "C01" | "C02" | "C09" | "C10" | "MAPPER" => {
+            let mask = match prop.as_str() {
+                "C01" => 1 | 16,
+                "C02" => 2,
+                "C09" => 4,
+                "C10" => 8,
+                _ => 31,
+            };
+            // the corpus (witnesses of past findings, minimised failures) runs first
+            let corpus = std::env::var("VERIF_CORPUS").unwrap_or_else(|_| "/verif/corpus".to_string());
+            mapper::run_corpus_dir(&mut out, &format!("{}/mapper", corpus), mask);
+            mapper::run_histories(&mut out, &mut rng, tier, mask)
+        }
         _ => {
             eprintln!("unknown property {}", prop);
             std::process::exit(2);
